@@ -6,7 +6,13 @@ junit = "/var/tmp/whverif/baseline.junit.xml"
 os.makedirs("/var/tmp/whverif", exist_ok=True)
 env = {k: v for k, v in os.environ.items() if not k.startswith("WHATSHAP_VERIF") and k != "PYTHONPATH"}
 cmd = base["cmd"].replace("<file>", junit)
+if os.path.exists(junit):
+    os.remove(junit)
 p = subprocess.run(cmd, shell=True, env=env, capture_output=True, text=True)
+if not os.path.exists(junit):
+    print("baseline: the test run did not finish (crash?) - no junit file written")
+    print((p.stdout + p.stderr)[-1500:])
+    sys.exit(2)
 passed = set()
 for tc in ET.parse(junit).getroot().iter("testcase"):
     if not any(c.tag in ("failure", "error", "skipped") for c in tc):
@@ -14,5 +20,5 @@ for tc in ET.parse(junit).getroot().iter("testcase"):
 want = set(base["stable_pass"])
 missing = sorted(want - passed)
 print(f"baseline: {len(want & passed)}/{len(want)} stable tests pass; missing: {missing[:10]}")
-print(p.stdout.strip().splitlines()[-1])
+print([l for l in p.stdout.strip().splitlines() if " passed" in l or " failed" in l][-1:])
 sys.exit(1 if missing else 0)
